@@ -38,10 +38,19 @@ def generate(rng, tier):
     for p in ["tail", "map", "cat", ".ack close", "grep:before=4611686018427387904 /etc/hostname regex:default x", "map select ` from X",
               ".ack x", "map select", "bogus a b", "cat /etc/hostname", "map select count(x) from STATS", ".ack close connection"]:
         cases.append({"payloads": [p.encode().hex()]})
+    FILES = ["/etc/hostname", "/etc/host*", "/etc//hostname", "/etc//host*", "/etc/./host*", "/etc/ssl/../host*", "//etc/host*", "/etc/host*/",
+             "/e*/hostname", "/etc/*/../hostname", "/nonexistent", "/etc/hostname/", "*", "", "/", "/*", "/etc/host[n", "/etc/host?ame", "/etc/{a,b}"]
+    RXWORDS = ["regex:default", "regex:invert", "regex:noop", "regex:verbose", "regex:", "regex:Invert", "regex:,", "regex:default,invert",
+               "regex:bogus,invert", "regex", "regexp:default", "regex:default:x", "x"]
     n = 900 if tier == "quick" else 20000
     for i in range(n):
         k = rng.random()
-        if k < 0.5:
+        if k < 0.3:
+            # well-formed shape of a read command with hostile pieces: word, file / glob, regex word, pattern
+            word = rng.choice(["cat", "grep", "tail", "cat:", "grep:max=1", "grep:before=1:after=1", "cat:plain=true", "tail:quiet=true"])
+            parts = [word, rng.choice(FILES), rng.choice(RXWORDS)] + [rng.choice(["vm", "x", ".", "[", "a b", "", "(?i)V", "\\"])] * rng.choice([0, 1, 1, 2])
+            cases.append({"payloads": [" ".join(parts).encode().hex()], "wait_ms": 600})
+        elif k < 0.5:
             word = rng.choice(WORDS)
             args = [rng.choice(ARGS) for _ in range(rng.choice([0, 0, 1, 1, 2, 2, 3, 4, 6]))]
             cases.append({"payloads": [" ".join([word] + args).encode().hex()]})
